@@ -1018,18 +1018,69 @@ func dataCycleGuarded(p *Prog, comp []*ssa.Function, in map[*ssa.Function]bool) 
 				}
 			}
 			if b, ok := prm.Type().Underlying().(*types.Basic); ok && b.Info()&types.IsInteger != 0 {
-				bounded := false
-				eachInstr(f, func(inr ssa.Instruction) {
-					if ifi, ok := inr.(*ssa.If); ok {
-						if bo, ok := ifi.Cond.(*ssa.BinOp); ok && bo.X == prm && (bo.Op == token.GTR || bo.Op == token.GEQ) {
-							if _, isC := constInt(bo.Y); isC {
-								bounded = true
-							}
+				// the recursive calls made by f
+				var recCalls []ssa.CallInstruction
+				for _, site := range callsIn(f) {
+					for _, callee := range p.Callees(site) {
+						if in[callee] {
+							recCalls = append(recCalls, site)
+							break
 						}
 					}
+				}
+				bounded := false
+				eachInstr(f, func(inr ssa.Instruction) {
+					ifi, ok := inr.(*ssa.If)
+					if !ok {
+						return
+					}
+					bo, ok := ifi.Cond.(*ssa.BinOp)
+					if !ok || bo.X != prm || !(bo.Op == token.GTR || bo.Op == token.GEQ) {
+						return
+					}
+					if _, isC := constInt(bo.Y); !isC {
+						return
+					}
+					// the bound is effective: beyond it the function leaves without recursing, and no recursive
+					// call is reachable except past this test
+					exit := ifi.Block().Succs[0]
+					leaves := false
+					if n := len(exit.Instrs); n > 0 {
+						_, leaves = exit.Instrs[n-1].(*ssa.Return)
+					}
+					for _, rc := range recCalls {
+						if !ifi.Block().Dominates(rc.Block()) || exit.Dominates(rc.Block()) {
+							leaves = false
+						}
+					}
+					if leaves {
+						bounded = true
+					}
 				})
-				if bounded {
-					return true, "depth parameter `" + prm.Name() + "` compared with a constant in " + shortName(f)
+				// … and the bounded quantity grows along every recursive edge of f
+				grows := len(recCalls) > 0
+				pi := -1
+				for i, q := range f.Params {
+					if q == prm {
+						pi = i
+					}
+				}
+				for _, rc := range recCalls {
+					args := callArgs(rc.Common())
+					if rc.Common().StaticCallee() != f || pi < 0 || pi >= len(args) {
+						continue // another function of the cycle: its own parameter is judged there
+					}
+					inc, ok := args[pi].(*ssa.BinOp)
+					if !ok || inc.Op != token.ADD || inc.X != ssa.Value(prm) {
+						grows = false
+						continue
+					}
+					if k, isC := constInt(inc.Y); !isC || k <= 0 {
+						grows = false
+					}
+				}
+				if bounded && grows {
+					return true, "depth parameter `" + prm.Name() + "` is compared with a constant before every recursive call of " + shortName(f) + " (beyond it the function returns) and grows along every recursive edge"
 				}
 			}
 		}
